@@ -54,7 +54,8 @@ impl LuaEngine {
         let result = lua.load(script).eval::<LuaValue>();
         
         match result {
-            Ok(value) => Ok(self.lua_value_to_resp(value)),
+            // A table nested deeper than the protocol allows (or one that contains itself) has no reply form
+            Ok(value) => Ok(self.lua_value_to_resp(value, 0).unwrap_or_else(|| RespFrame::error("ERR reached lua stack limit"))),
             Err(e) => {
                 match e {
                     mlua::Error::RuntimeError(ref msg) => {
@@ -388,8 +389,16 @@ impl LuaEngine {
         Ok(())
     }
     
-    fn lua_value_to_resp(&self, value: LuaValue) -> RespFrame {
-        match value {
+    /// Convert the value a script returns into its reply. `depth` is the number of tables around `value`; the
+    /// conversion recurses once per level, so like the parser it has a limit (a table that contains itself would
+    /// recurse until the stack of the command thread overflows): None = no reply form. The limit is one level below
+    /// the parser's MAX_NESTING, so that the reply - also as an element of an EXEC reply, one array further out -
+    /// is a frame that RESP parsers with that limit, this server's own included, accept.
+    fn lua_value_to_resp(&self, value: LuaValue, depth: usize) -> Option<RespFrame> {
+        if depth >= crate::protocol::parser::MAX_NESTING {
+            return None;
+        }
+        Some(match value {
             LuaValue::Nil => RespFrame::BulkString(None),
             LuaValue::Boolean(b) => {
                 if b {
@@ -419,17 +428,17 @@ impl LuaEngine {
             LuaValue::Table(table) => {
                 // {err = msg} is an error reply, {ok = msg} a status reply
                 if let Ok(LuaValue::String(s)) = table.get::<LuaValue>("err") {
-                    return RespFrame::Error(Arc::new(s.as_bytes().to_vec()));
+                    return Some(RespFrame::Error(Arc::new(s.as_bytes().to_vec())));
                 }
                 if let Ok(LuaValue::String(s)) = table.get::<LuaValue>("ok") {
-                    return RespFrame::SimpleString(Arc::new(s.as_bytes().to_vec()));
+                    return Some(RespFrame::SimpleString(Arc::new(s.as_bytes().to_vec())));
                 }
                 // Convert Lua table to Redis array
                 let mut items = Vec::new();
                 for i in 1.. {
                     match table.get::<LuaValue>(i) {
                         Ok(LuaValue::Nil) => break,
-                        Ok(value) => items.push(self.lua_value_to_resp(value)),
+                        Ok(value) => items.push(self.lua_value_to_resp(value, depth + 1)?),
                         Err(_) => break,
                     }
                 }
@@ -437,7 +446,7 @@ impl LuaEngine {
                 RespFrame::Array(Some(items))
             }
             _ => RespFrame::BulkString(None),
-        }
+        })
     }
     
     fn calculate_script_sha1(&self, script: &str) -> String {
